@@ -158,14 +158,14 @@ impl<S: ShortGroupSignatureScheme> Issuer<S> {
             self.revocation_registry.value,
             &self.revocation_key,
         );
+        let signature = S::Signature::create(&self.signing_key, &attributes)
+            .map_err(|_| Error::InvalidSigningOperation)?;
         self.revocation_registry
             .active
             .insert(revocation_claim.value.clone());
         self.revocation_registry
             .elements
             .insert(revocation_claim.value.clone());
-        let signature = S::Signature::create(&self.signing_key, &attributes)
-            .map_err(|_| Error::InvalidSigningOperation)?;
         let credential_bundle = CredentialBundle {
             issuer: IssuerPublic::from(self),
             credential: Credential {
@@ -256,12 +256,6 @@ impl<S: ShortGroupSignatureScheme> Issuer<S> {
             self.revocation_registry.value,
             &self.revocation_key,
         );
-        self.revocation_registry
-            .active
-            .insert(revocation_claim.value.clone());
-        self.revocation_registry
-            .elements
-            .insert(revocation_claim.value.clone());
 
         let signature = S::blind_sign(
             &request.blind_signature_context,
@@ -270,6 +264,12 @@ impl<S: ShortGroupSignatureScheme> Issuer<S> {
             request.nonce,
         )
         .map_err(|_| Error::InvalidSigningOperation)?;
+        self.revocation_registry
+            .active
+            .insert(revocation_claim.value.clone());
+        self.revocation_registry
+            .elements
+            .insert(revocation_claim.value.clone());
         let blind_credential_bundle = BlindCredentialBundle {
             issuer: IssuerPublic::from(self),
             credential: BlindCredential {
